@@ -298,6 +298,18 @@ func runC19(c *Ctx) {
 				}
 			}
 			r.Check("C19.3", "prints-injected-spec", okPrint && spec == ssa.Value(paramOfType(fn, ociSpecsPkg, "Spec")), c.pos(inj[0]), "the OCI spec printed is the one handed to InjectDevices, and only when it returned no error")
+			// which devices are injected: the cache's device names matched against the patterns
+			// of the command line - filepath.Match(pattern, name), in that order (the other way
+			// round a literal name still matches itself, a pattern with * ? [ matches nothing)
+			for _, call := range ir.Calls(fn) {
+				if f := call.Common().StaticCallee(); f == nil || f.String() != "path/filepath.Match" {
+					continue
+				}
+				pat := normExpr(fn, []string{c.exprDesc(call.Common().Args[0])})[0]
+				name := normExpr(fn, []string{c.exprDesc(call.Common().Args[1])})[0]
+				okArgs := strings.HasPrefix(pat, "elem($") && strings.Contains(name, "ListDevices(")
+				r.Check("C19.3", "inject-match-args", okArgs, c.pos(call), fmt.Sprintf("devices are selected by filepath.Match(<pattern from the command line>, <device name from the cache>) (found pattern=%s, name=%s)", pat, name))
+			}
 			// devices: matches among ListDevices of the same cache
 			okDev := false
 			for _, call := range c.callsTo(fn, false, "cdi", "(*Cache).ListDevices") {
